@@ -189,7 +189,7 @@ LEVEL_TEXT = ('Coq theorems, for all frames of 1-512 slots and all addresses, ab
               'c07_artnet_remaining_sender (two merge slots, LTP/HTP: once the other sender is silent beyond the 10 s merge '
               'timeout the remaining sender\'s frame is reproduced exactly), c07_e131_sender_script (SetSourceName / '
               'StartStream between sends never disturb a stream), c07_shownet_sender_history (one sender, any universes, '
-              'identical frames, renames); c07_espnet_rle_lossless (ESP Net run-length format: decode of a reference encoding gives the frame back for every frame, 0xFD/0xFE in runs and literals included); c07_e131_remaining_sender (several sender CIDs: once every other sender has expired the live sender\'s frame is reproduced exactly, whatever priority the vanished senders left behind); c07_e131_multi_universe: for any interleaving of sends over any universes by one sender each handler sees '
+              'identical frames, renames); c07_e131_sender_script_offsets (scripts mixing sends, offset sends -1..-20, SetSourceName/StartStream: every regular frame delivered) and c07_e131_offset_ahead; c07_espnet_rle_lossless (ESP Net run-length format: decode of a reference encoding gives the frame back for every frame, 0xFD/0xFE in runs and literals included); c07_e131_remaining_sender (several sender CIDs: once every other sender has expired the live sender\'s frame is reproduced exactly, whatever priority the vanished senders left behind); c07_e131_multi_universe: for any interleaving of sends over any universes by one sender each handler sees '
               'exactly the frames of its own universe (rev 3 proved; rev 2 multi-universe correspondence-tested); plus RunLengthEncoder lossless / bounded / false-iff-truncated / count bytes in 1..127 for all '
               'frames and capacities.  The models are tied to the C++ (real node objects, ASan/UBSan, datagram bytes '
               'compared) by a differential correspondence check; receivers are modelled with one handler and no '
